@@ -277,9 +277,12 @@ func (rt *Transfer) recvGenerator(idx int, f *File) error {
 	}
 
 	if !st.Mode().IsRegular() {
-		// A non-regular file with this name exists. Delete it so that we can
-		// create our file instead.
-		if !rt.Opts.DryRun {
+		// A non-regular file with this name exists. Anything but a directory
+		// stays in place until the received file is renamed over it (so that
+		// the path never goes missing when the transfer is interrupted); only
+		// a directory cannot be replaced by rename and needs to be deleted so
+		// that we can create our file instead.
+		if st.IsDir() && !rt.Opts.DryRun {
 			if err := rt.DestRoot.Remove(f.Name); err != nil {
 				return fmt.Errorf("unlinking to make room for regular file: %v", err)
 			}
